@@ -989,8 +989,38 @@ func runC03(c *checker, r *rng.R) {
 		}
 	}
 	c.flush()
+	// binaries whose declared length lies above the 1 MiB threshold of ReadBinary (above it the
+	// readers copy in pieces instead of allocating the declared length) and whose payload stops
+	// short — exactly at a multiple of 1 MiB, at other block sizes a copier may use, and one byte
+	// either side: nothing but an error is acceptable (seeded change C03-64: a piece that returns
+	// io.EOF without a byte was taken for the end of the value)
+	{
+		type cut struct{ decl, have int }
+		cuts := []cut{{1<<20 + 1, 1 << 20}, {2<<20 + 7, 1 << 20}, {2<<20 + 7, 2 << 20}, {3 << 20, 1<<20 + 1}, {2 << 20, 1<<20 - 1}, {1<<20 + 1, 4096}, {3 << 20, 65536}}
+		if *tier == "thorough" {
+			for k := 1; k <= 4; k++ {
+				cuts = append(cuts, cut{5<<20 + 3, k << 20}, cut{k<<20 + 1, k << 20})
+			}
+			for sh := uint(9); sh <= 21; sh++ {
+				cuts = append(cuts, cut{4 << 20, 1 << sh}, cut{1<<20 + 1<<sh + 1, 1<<20 + 1<<sh})
+			}
+		}
+		for i, d := range cuts {
+			b := make([]byte, 4+d.have)
+			b[0], b[1], b[2], b[3] = byte(d.decl>>24), byte(d.decl>>16), byte(d.decl>>8), byte(d.decl)
+			for j := 4; j < len(b); j++ {
+				b[j] = byte(j % 251)
+			}
+			if i%2 == 0 {
+				c03Input(c, r, wv.TBinary, b, "large-binary-cut-at-block-boundary")
+			} else { // as field 1 of a struct
+				c03Input(c, r, wv.TStruct, append([]byte{wv.TBinary, 0, 1}, b...), "large-binary-cut-at-block-boundary")
+			}
+			c.flush()
+		}
+	}
 	c03DeepProbe(c)
-	c.rep.Rule = "byte strings: valid encodings, truncation at every offset of encodings ≤24 bytes, grammar-aware mutations (bit/byte flips, type-byte swaps, length/count edits incl. negative and 2^31-1, insert/delete/truncate/append), uniform random, valid values nested 8 … 1000 levels deep (one item per level: lists, sets, map values, struct fields, mixed); × requested type (11 valid + random invalid) × {random-access+force, stream under random segmentation incl. 1-byte and zero-length reads, skip with and without seek}; non-trivial = non-empty input; distinct by (type, bytes)"
+	c.rep.Rule = "byte strings: valid encodings, binaries declared above 1 MiB whose payload stops at a multiple of 1 MiB / 4 KiB / 64 KiB or one byte beside it, truncation at every offset of encodings ≤24 bytes, grammar-aware mutations (bit/byte flips, type-byte swaps, length/count edits incl. negative and 2^31-1, insert/delete/truncate/append), uniform random, valid values nested 8 … 1000 levels deep (one item per level: lists, sets, map values, struct fields, mixed); × requested type (11 valid + random invalid) × {random-access+force, stream under random segmentation incl. 1-byte and zero-length reads, skip with and without seek}; non-trivial = non-empty input; distinct by (type, bytes)"
 }
 
 // deepChild is the body of the child process of c03DeepProbe: struct-in-struct nesting of `depth`
